@@ -886,6 +886,7 @@ func c12R11(ic *IC, r *Report) {
 
 func init() {
 	ruleText["R12.12"] = "= R03.4 / R03.8 shared: the representability function bounds signed kinds with width-1 bits and rounds a floating-point constant with the accessor of the target's own width (an out-of-range constant is a static error of the class C12 lists)"
+	ruleText["R12.14"] = "= R06.15 shared: every path from an exported entry point to a compile pass goes through a converting recover"
 	ruleText["R12.13"] = "in (*itype).convertibleTo no shortcut accepts a conversion because of the operands' kinds when neither is unsafe.Pointer: evaluated three-valued for (pointer, pointer), (pointer, uintptr) and (uintptr, pointer), no condition guarding a 'return true' is definitely true"
 }
 
